@@ -232,6 +232,13 @@ class World:
             "range": [-8e-7, 4e-7],
         }
         self.history = []
+        # a freshly built curve has no preprocessing of its own - whatever other curves went through before
+        self.leak = None
+        if list(self.idnt.preprocessing) != [] or dict(self.idnt.preprocessing_options) != {} or \
+                len(self.idnt.fit_properties) != 0:
+            self.leak = (f"a freshly built curve reports preprocessing={self.idnt.preprocessing!r}, "
+                         f"preprocessing_options={self.idnt.preprocessing_options!r}, fit_properties keys "
+                         f"{sorted(self.idnt.fit_properties)} (state of an earlier curve of this process)")
 
     # ------------------------------------------------------------------ observation
     def observe(self, outcome, counter, extra=""):
